@@ -1,5 +1,5 @@
 (* Proofs about the RREL evaluation model (Model/Rrel.v). *)
-From TxV Require Import Core.Base Model.RrelSyntax Model.Rrel.
+From TxV Require Import Core.Base Gen.SrcRrel Model.RrelSyntax Model.Rrel.
 
 (* ------------------------------------------------------------ primitive steps *)
 Lemma root_of_spec F m o r : root_of F m o = Some r -> is_root_of m o r.
@@ -910,3 +910,53 @@ Proof.
   - reflexivity.
   - reflexivity.
 Qed.
+
+(* ------------------------------------------------------------ facts read from the source
+   (Gen/SrcRrel.v, regenerated from textx/scoping/rrel.py on every run) against the same facts
+   observed on the model's own functions *)
+Definition obs_tbl : list orow :=
+  [ {| o_parent := None; o_name := None; o_attrs := [([97]%N, VList [1; 2])]; o_conf := [] |};
+    {| o_parent := Some 0; o_name := Some [110]%N; o_attrs := []; o_conf := [] |};
+    {| o_parent := Some 0; o_name := Some [110]%N; o_attrs := []; o_conf := [] |} ].
+
+Definition obs_pick_first : bool :=
+  match apply_nav 5 (of_table obs_tbl) [97]%N true None false (mk 0 [[110]%N] []),
+        apply_nav 5 (of_table obs_tbl) [97]%N false (Some [110]%N) false (mk 0 [] []) with
+  | SOuts [c1], SOuts [c2] => Nat.eqb (c_obj c1) 1 && Nat.eqb (c_obj c2) 1
+  | _, _ => false
+  end.
+
+Definition obs_star_local_first : bool :=
+  match fst (star_zero true true 5 (of_table obs_tbl) (fun c s => (RFound (c_obj c) [], s)) true (mk 1 [] []) st0) with
+  | RFound 1 _ => true
+  | _ => false
+  end.
+
+Definition obs_proxy_completed : bool :=
+  match proxy_path 1 [0], proxy_path 1 [0; 1], proxy_path 1 [] with
+  | [0; 1], [0; 1], [1] => true
+  | _, _, _ => false
+  end.
+
+Definition obs_nav_flags (txt : list N) : bool * bool :=
+  match parse txt with
+  | Some {| eseq := S1 (P1 (ENav _ c f)); eflags := _ |} => (c, match f with Some _ => true | None => false end)
+  | _ => (false, false)
+  end.
+
+Definition model_facts : rrel_facts := {|
+  key_has_first := true;                       (* the key form all C11 statements about completeness use *)
+  pick_first_named := obs_pick_first;
+  star_local_before_root := obs_star_local_first;
+  proxy_completed_by_target := obs_proxy_completed;
+  leaf_starts := [(sl_elem (EParent []), sr_elem (EParent []));
+                  (sl_elem (ENav [] true None), sr_elem (ENav [] true None));
+                  (sl_elem (EDots 1), sr_elem (EDots 1))];
+  nav_flags := [obs_nav_flags [97]%N; obs_nav_flags [126; 97]%N; obs_nav_flags [39; 115; 39; 126; 97]%N]
+|}.
+
+Lemma src_facts_ok : src_facts = model_facts.
+Proof. vm_compute. reflexivity. Qed.
+
+Lemma src_key_form : key_has_first src_facts = true.
+Proof. rewrite src_facts_ok. reflexivity. Qed.
